@@ -30,6 +30,23 @@ def set_id(b, op, depth=0):
     pl = op_place(op) if ("c" in op or "m" in op or "k" in op) else op
     if pl is None or depth > 8:
         return ("unknown", "?")
+    if depth == 0:
+        # a set reached through a reference parameter of an inlined helper or the environment of an expanded closure
+        q = pl
+        if b.facts.types[pl["t"]].get("k") == "ref" if isinstance(pl.get("t"), int) else False:
+            q = {"l": pl["l"], "p": list(pl["p"]) + ["*"], "t": b.facts.types[pl["t"]]["t"]}
+        org = T.place_origin(b, q)
+        if org is not None:
+            base, flds = org
+            flds = tuple(x for x in flds if x != "*")
+            bty = b.facts.types[b.facts.peel_refs(b.local_ty(base))]["s"]
+            if not flds and bty == SIG and b.facts.types[b.local_ty(base)].get("k") != "ref" and (b.local_name(base) is not None or len(b.defs().get(base, [])) != 1 or b.defs()[base][0][0] != "assign" or b.defs()[base][0][3]["rv"]["r"] != "use"):
+                return ("local", base)
+            if flds and not (1 <= base <= b.arg_count) and b.facts.types[b.local_ty(base)].get("k") != "ref":
+                # a SigSet field of a local struct value (sets bundled in a helper's result)
+                return ("local", base, flds)
+            if base == 1 and "mask" in flds:
+                return ("self.mask",)
     names = [p["n"] for p in pl["p"] if isinstance(p, dict) and "f" in p]
     ty = b.facts.types[b.facts.peel_refs(pl["t"])]["s"]
     if "mask" in names and pl["l"] == 1:
@@ -108,6 +125,12 @@ def run(ck):
                 ck.verdict(bad is None, "1", "T2-all-exits", b, "set_mask(local)=>self.mask:=local", "the set given to the signalfd is stored into self.mask on every successful path", "the signalfd is given a new set that is never stored into self.mask: the bookkeeping goes stale and a later add/remove/set re-blocks (or keeps reporting) the wrong signals", site=b.where(c.bb), path=path_descr(b, bad) if bad else None)
             else:
                 ck.violation("1", "T6-provenance", b, "set_mask-argument", "the signalfd is given a set that is neither self.mask nor a local set stored into self.mask (%s)" % (sid,), site=b.where(c.bb))
+        # a set that is stored into self.mask is (an alias of) the final mask
+        for i, j, st in T.stores_to_field(b, "mask"):
+            if not b.is_cleanup(i) and st["rv"]["r"] == "use" and ("self.mask",) in final_ids:
+                sid = set_id(b, st["rv"]["o"])
+                if sid[0] == "local":
+                    final_ids.add(sid)
         # ---- clause 2 ----------------------------------------------------------------------------------
         for u in sigcalls(b, "thread_unblock"):
             rid = set_id(b, u.args[0])
